@@ -1,5 +1,6 @@
 import Rangers.Model.TxAuth
 import Rangers.Proofs.TxAuth
+import Rangers.Proofs.TxAuthCodec
 /-!
 # C07 — only authentic transactions are admitted
 
@@ -465,5 +466,85 @@ theorem eth_chain_bound_declared (cr : Crypto) (cfg : ChainCfg) (h : Nat) (tx : 
   · exact absurd hz hnz
 
 example : (toyWrapped toyEth155).chainId ≠ [48] := by decide
+
+/-! ### honest wrapped transactions are accepted -/
+
+/-- What `eth_rpc.SendRawTransaction` builds from a payload whose signer recovers
+    under this chain's rules is admitted, provided the payload survives the two
+    codecs on the way (`ExtraData` hex and RLP) — both discharged below for
+    well-formed transactions (`honest_eth_accepted`). -/
+theorem honest_eth_accepted_of_roundtrip (cr : Crypto) (cfg : ChainCfg) (h : Nat) (e : EthTx) (sender : Bytes)
+    (hhex : fromHex (toHex0x (encodeTx e)) = encodeTx e)
+    (hrlp : decodeTx (encodeTx e) = some e)
+    (hsnd : ethSender cr (ethChainId cfg h) e = some sender) :
+    verifyTx cr cfg h (convertTx cr e sender (encodeTx e)) = .ok := by
+  unfold verifyTx
+  have ht : (convertTx cr e sender (encodeTx e)).type = typeETHTX := rfl
+  simp only [ht, ↓reduceIte]
+  apply (eth_accept_iff cr cfg h _).2
+  have hx : (convertTx cr e sender (encodeTx e)).extraData = toHex0x (encodeTx e) := rfl
+  refine ⟨e, sender, ?_, ?_, hsnd, rfl, rfl, rfl, ?_, rfl, rfl, rfl, ?_⟩
+  · rw [hx, hhex]; exact hrlp
+  · rw [hx, hhex]
+  · rw [hx, hhex]
+  · rw [hx, hhex]; rfl
+
+example : fromHex (toHex0x (encodeTx toyEth155)) = encodeTx toyEth155 ∧
+    decodeTx (encodeTx toyEth155) = some toyEth155 ∧
+    ethSender toyCrypto (ethChainId toyCfg 0) toyEth155 = some (List.replicate 20 1) := by decide
+
+/-- The payload codecs are lossless on well-formed transactions: hex and RLP. -/
+theorem payload_roundtrip (e : EthTx) (wf : WfEthTx e) :
+    fromHex (toHex0x (encodeTx e)) = encodeTx e ∧ decodeTx (encodeTx e) = some e :=
+  ⟨fromHex_toHex0x _ (encodeTx_ne_nil e), decodeTx_encodeTx e wf⟩
+
+/-- Honestly signed wrapped transactions are always accepted: for every well-formed
+    Ethereum transaction whose signer the chain's EIP-155 rules recover, the wrapped
+    form built by `ConvertTx` (what `eth_rpc.SendRawTransaction` submits) is admitted. -/
+theorem honest_eth_accepted (cr : Crypto) (cfg : ChainCfg) (h : Nat) (e : EthTx) (sender : Bytes)
+    (wf : WfEthTx e) (hsnd : ethSender cr (ethChainId cfg h) e = some sender) :
+    verifyTx cr cfg h (convertTx cr e sender (encodeTx e)) = .ok :=
+  honest_eth_accepted_of_roundtrip cr cfg h e sender (payload_roundtrip e wf).1 (payload_roundtrip e wf).2 hsnd
+
+example : WfEthTx toyEth155 := by
+  constructor <;> first | decide | (intro a ha; cases ha)
+
+/-- When the EIP-155 signer of chain `c` recovers a sender: `v = 2c+35+k` with
+    recovery bit `k`, `r`, `s` in range with low `s`, and the library recovers an
+    uncompressed key from the EIP-155 signing hash; the sender is the low 20 bytes of
+    the key's Keccak digest. -/
+theorem ethSender_eip155 (cr : Crypto) (c : Nat) (e : EthTx) (k : Nat) (pub : Bytes)
+    (hk : k < 2) (hv : e.v = 2 * c + 35 + k)
+    (hr : 1 ≤ e.r ∧ e.r < secpN) (hs : 1 ≤ e.s ∧ e.s ≤ secpHalfN)
+    (hrec : recoverPubkey cr (cr.keccak (sigPreimage155 c e))
+      (padLeft 32 (natToBE e.r) ++ padLeft 32 (natToBE e.s) ++ [UInt8.ofNat k]) = some pub)
+    (hpub : pub.head? = some 4) :
+    ethSender cr c e = some (((cr.keccak (pub.drop 1)).drop 12).take 20 ++
+      List.replicate (20 - min 20 ((cr.keccak (pub.drop 1)).drop 12).length) 0) := by
+  have hprot : isProtectedV e.v = true := by
+    unfold isProtectedV
+    by_cases hlt : e.v < 256
+    · simp only [hlt, ↓reduceIte, decide_eq_true_eq]; omega
+    · simp [hlt]
+  have hder : deriveChainId e.v = c := by
+    unfold deriveChainId
+    by_cases hlt : e.v < 2 ^ 64
+    · have h1 : ¬ (e.v = 27 ∨ e.v = 28) := by omega
+      have h2 : e.v ≥ 35 := by omega
+      simp only [hlt, ↓reduceIte, h1, h2]; omega
+    · simp only [hlt, ↓reduceIte]; omega
+  have hvb : Int.ofNat e.v - Int.ofNat (2 * c) - 8 = Int.ofNat (27 + k) := by
+    rw [hv]; simp only [Int.ofNat_eq_natCast]; omega
+  have hhalf : secpHalfN < secpN := by decide
+  unfold ethSender
+  simp only [hprot, not_true_eq_false, ↓reduceIte, hder, ne_eq, hvb]
+  unfold recoverPlain
+  have hna : (Int.ofNat (27 + k)).natAbs = 27 + k := rfl
+  have hvk : ((27 + k) % 2 ^ 64 + 2 ^ 64 - 27) % 256 = k := by omega
+  have c1 : ¬ (27 + k ≥ 256) := by omega
+  have c2 : ¬ (e.r < 1 ∨ e.s < 1) := by omega
+  have c3 : ¬ (e.s > secpHalfN) := by omega
+  have c4 : e.r < secpN ∧ e.s < secpN ∧ (k = 0 ∨ k = 1) := ⟨hr.2, by omega, by omega⟩
+  simp only [hna, hvk, c1, c2, c3, c4, ↓reduceIte, not_true_eq_false, and_self, hrec, hpub, ne_eq]
 
 end Rangers.Props.C07
